@@ -41,4 +41,37 @@ theorem cache_cfg_table :
     (∀ f ∈ BLDFM.Fld.determining, f ∈ cacheCfg.keyFields) ∧ cacheCfg.haloResolvedAtGet = true ∧
     cacheCfg.haloResolvedAtPut = true ∧ cacheCfg.atomicWrite = true ∧ cacheCfg.guardedLoad = true := by decide
 
+/-! C13: the keyword → expression tables of `run_bldfm_single` (local names inlined by substitution),
+the level-selection chain, the returned dictionary and `load_config` are the documented ones -/
+
+theorem call_table_single_assign_else_config_domain_output_levels_else_config_domain_full_output :
+    (single_assign_else_config_domain_output_levels_else_config_domain_full_output : List (String × String)) = [("levels", "config.domain.nz")] := rfl
+
+theorem call_table_single_assign_else_config_domain_output_levels_if_config_domain_full_output :
+    (single_assign_else_config_domain_output_levels_if_config_domain_full_output : List (String × String)) = [("levels", "list(range(config.domain.nz + 1))")] := rfl
+
+theorem call_table_single_assign_if_config_domain_output_levels :
+    (single_assign_if_config_domain_output_levels : List (String × String)) = [("levels", "config.domain.output_levels")] := rfl
+
+theorem call_table_single_assign_if_surface_flux_is_None :
+    (single_assign_if_surface_flux_is_None : List (String × String)) = [("nxy", "(config.domain.nx, config.domain.ny)"), ("domain", "(config.domain.xmax, config.domain.ymax)")] := rfl
+
+theorem call_table_single_ideal_source_if_surface_flux_is_None :
+    (single_ideal_source_if_surface_flux_is_None : List (String × String)) = [("0", "nxy"), ("1", "domain"), ("src_loc", "config.solver.src_loc"), ("shape", "config.solver.surface_flux_shape")] := rfl
+
+theorem call_table_single_return :
+    (single_return : List (String × String)) = [("grid", "grid"), ("conc", "conc"), ("flx", "flx"), ("tower_name", "tower.name"), ("tower_xy", "(tower.x, tower.y)"), ("timestamp", "config.met.get_step(met_index)['timestamp']"), ("params", "config.met.get_step(met_index)")] := rfl
+
+theorem call_table_single_steady_state_transport_solver :
+    (single_steady_state_transport_solver : List (String × String)) = [("srf_flx", "surface_flux"), ("z", "z"), ("profiles", "profiles"), ("domain", "(config.domain.xmax, config.domain.ymax)"), ("levels", "levels"), ("modes", "config.domain.modes"), ("meas_pt", "(tower.x, tower.y)"), ("footprint", "config.solver.footprint"), ("analytic", "config.solver.analytic"), ("halo", "config.domain.halo"), ("precision", "config.solver.precision"), ("cache", "cache")] := rfl
+
+theorem call_table_single_vertical_profiles_else_config_met_get_step_met_index__get__z0___is_not_None :
+    (single_vertical_profiles_else_config_met_get_step_met_index__get__z0___is_not_None : List (String × String)) = [("n", "config.domain.nz"), ("meas_height", "tower.z_m"), ("wind", "(compute_wind_fields(config.met.get_step(met_index)['wind_speed'], config.met.get_step(met_index)['wind_dir'])[0], compute_wind_fields(config.met.get_step(met_index)['wind_speed'], config.met.get_step(met_index)['wind_dir'])[1])"), ("ustar", "config.met.get_step(met_index)['ustar']"), ("mol", "config.met.get_step(met_index)['mol']"), ("closure", "config.solver.closure")] := rfl
+
+theorem call_table_single_vertical_profiles_if_config_met_get_step_met_index__get__z0___is_not_None :
+    (single_vertical_profiles_if_config_met_get_step_met_index__get__z0___is_not_None : List (String × String)) = [("n", "config.domain.nz"), ("meas_height", "tower.z_m"), ("wind", "(compute_wind_fields(config.met.get_step(met_index)['wind_speed'], config.met.get_step(met_index)['wind_dir'])[0], compute_wind_fields(config.met.get_step(met_index)['wind_speed'], config.met.get_step(met_index)['wind_dir'])[1])"), ("z0", "config.met.get_step(met_index).get('z0')"), ("mol", "config.met.get_step(met_index)['mol']"), ("closure", "config.solver.closure")] := rfl
+
+theorem call_table_loadConfigBody :
+    (loadConfigBody : List String) = ["path = Path(path)", "if not path.exists():     raise FileNotFoundError(f'Config file not found: {path}')", "with open(path) as f:     raw = yaml.safe_load(f)", "return parse_config_dict(raw)"] := rfl
+
 end BLDFM.Bridge
